@@ -26,6 +26,7 @@ namespace Givaro {
     inline typename Poly1Dom<Domain,Dense>::Rep& Poly1Dom<Domain,Dense>::stdmul(
         Rep& R, const Rep& P, const Rep& Q ) const
     {
+        if (&R == &P || &R == &Q) { Rep T; stdmul(T, P, Q); return assign(R, T); } // R may be the same object as P or Q
         const size_t sP = P.size();
         const size_t sQ = Q.size();
         if ((sQ ==0) || (sP ==0)) { R.resize(0); return R; }
@@ -44,6 +45,7 @@ namespace Givaro {
     inline typename Poly1Dom<Domain,Dense>::Rep& Poly1Dom<Domain,Dense>::karamul(
         Rep& R, const Rep& P, const Rep& Q ) const
     {
+        if (&R == &P || &R == &Q) { Rep T; karamul(T, P, Q); return assign(R, T); } // R may be the same object as P or Q
         const size_t sP = P.size();
         const size_t sQ = Q.size();
         if ((sQ ==0) || (sP ==0)) { R.resize(0); return R; }
